@@ -72,6 +72,8 @@ FIXED = [
      "every JSON document with a COROUTINE routine failed with 'Unknown coroutine for: 0'"),
     ("C15", "fix: decompile CLI crashed on integer coordinates of position marks",
      "the documented `\"x\": 10` raised AttributeError: 'int' object has no attribute 'split'"),
+    ("C11", "fix: read_routines of the decompile CLI module numbered operations across calls",
+     "history [read_routines(doc)+decompile, read_routines(doc)+decompile]: the second call returned ops numbered 4.. with jump parameters still 1-based and decompiled to the SsbScript fallback: module-level counter never reset"),
     ("C08", "fix: source map file of macros imported by an imported file",
      "main.exps -> lib.exps -> deep/lib2.exps: macro entries and IncludedUsageMap named lib.exps for macros defined in deep/lib2.exps (66 of 574 macro cases)"),
 ]
